@@ -1,9 +1,17 @@
 package c03
 
 import (
+	"bytes"
 	"encoding/json"
 	"fmt"
+	"go/ast"
+	"go/parser"
+	"go/token"
+	"path/filepath"
+	"strconv"
 	"strings"
+
+	"github.com/ontio/ontology/core/store/overlaydb"
 
 	"verif/harness/hx"
 )
@@ -108,6 +116,146 @@ func relatedVal(c *hx.Ctx, long bool, key, cur []byte, all [][]byte) []byte {
 	return randVal(c, long)
 }
 
+// ---------- buffer capacities (read from the code) and large values ----------
+
+// bufCaps: initial key/value buffer capacity of an OverlayDB's MemDB (from the linked package) and
+// of a CacheDB's MemDB (const initCap of smartcontract/storage/cachedb.go, from the source).
+var bufCaps struct{ overlay, cache int }
+
+func readCaps(c *hx.Ctx) {
+	bufCaps.overlay = overlaydb.NewOverlayDB(nil).GetWriteSet().Capacity()
+	bufCaps.cache = 0
+	fset := token.NewFileSet()
+	if f, err := parser.ParseFile(fset, filepath.Join(c.Repo, "smartcontract/storage/cachedb.go"), nil, 0); err == nil {
+		ast.Inspect(f, func(n ast.Node) bool {
+			if vs, ok := n.(*ast.ValueSpec); ok && len(vs.Names) == 1 && vs.Names[0].Name == "initCap" && len(vs.Values) == 1 {
+				bufCaps.cache = constInt(vs.Values[0])
+			}
+			return true
+		})
+	}
+	if bufCaps.cache <= 0 {
+		c.Note("c03: const initCap of smartcontract/storage/cachedb.go not found; using the overlay capacity / 4")
+		bufCaps.cache = bufCaps.overlay / 4
+	}
+	c.Note(fmt.Sprintf("buffer capacities read from the code: OverlayDB memdb %d, CacheDB memdb %d", bufCaps.overlay, bufCaps.cache))
+}
+
+func constInt(e ast.Expr) int {
+	switch x := e.(type) {
+	case *ast.BasicLit:
+		v, _ := strconv.ParseInt(x.Value, 0, 64)
+		return int(v)
+	case *ast.ParenExpr:
+		return constInt(x.X)
+	case *ast.BinaryExpr:
+		a, b := constInt(x.X), constInt(x.Y)
+		switch x.Op {
+		case token.MUL:
+			return a * b
+		case token.ADD:
+			return a + b
+		case token.SHL:
+			return a << uint(b)
+		}
+	}
+	return 0
+}
+
+// fillerVal: n bytes, a long run of one byte between short random ends (run-length encoded in the case term)
+func fillerVal(c *hx.Ctx, n int) []byte {
+	if n < 1 {
+		n = 1
+	}
+	v := bytes.Repeat([]byte{byte(c.Intn(256))}, n)
+	h, t := c.Intn(7), c.Intn(7)
+	if h+t < n {
+		copy(v, c.Bytes(h))
+		copy(v[n-t:], c.Bytes(t))
+	}
+	return v
+}
+
+// addBigPuts inserts one or two Puts whose len(key)+len(value) is around the buffer capacity (the
+// initial ones read from the code, and the actual Capacity()/Free() of a MemDB that has executed the
+// operations before it), always after an overwrite and a delete of an existing key have happened.
+func addBigPuts(c *hx.Ctx, in *Input) {
+	seen := map[string]bool{}
+	ow, dl, at := false, false, -1
+	for i, o := range in.Ops {
+		if seen[o.K] {
+			if o.Del {
+				dl = true
+			} else if o.V != "" {
+				ow = true
+			}
+		}
+		seen[o.K] = true
+		if ow && dl {
+			at = i + 1
+			break
+		}
+	}
+	if at < 0 {
+		k := hx.Hex(c.Bytes(1 + c.Intn(6)))
+		if len(in.Ops) > 0 {
+			k = in.Ops[c.Intn(len(in.Ops))].K
+		}
+		k2 := hx.Hex(c.Bytes(2 + c.Intn(6)))
+		in.Ops = append(in.Ops, Op{K: k, V: hx.Hex(c.Bytes(1 + c.Intn(20)))}, Op{K: k, V: hx.Hex(c.Bytes(1 + c.Intn(20)))},
+			Op{K: k2, V: hx.Hex(c.Bytes(1 + c.Intn(20)))}, Op{Del: true, K: k2})
+		at = len(in.Ops)
+	}
+	n := 1
+	if c.Intn(3) == 0 {
+		n = 2
+	}
+	for ; n > 0; n-- {
+		pos := at + c.Intn(len(in.Ops)-at+1)
+		ov := overlaydb.NewOverlayDB(nil)
+		for _, o := range in.Ops[:pos] {
+			if o.Del {
+				ov.Delete(o.key())
+			} else {
+				ov.Put(o.key(), o.val())
+			}
+		}
+		curCap, free := ov.GetWriteSet().Capacity(), ov.GetWriteSet().Free()
+		c0, c1 := bufCaps.overlay, bufCaps.cache
+		cands := []int{c0 - 96 + c.Intn(200), c1 - 24 + c.Intn(100), c0 * 5000 / 4096, c0 * 9000 / 4096,
+			curCap - 1, curCap, curCap + 1, curCap + c.Intn(200), free, free + 1, 2*curCap + 3}
+		total := cands[c.Intn(len(cands))]
+		var k string
+		if c.Intn(2) == 0 {
+			k = in.Ops[c.Intn(len(in.Ops))].K // a key already in the list: the overwrite path of Put
+		} else {
+			k = hx.Hex(c.Bytes(1 + c.Intn(8)))
+		}
+		o := Op{K: k, V: hx.Hex(fillerVal(c, total-len(k)/2))}
+		in.Ops = append(in.Ops[:pos], append([]Op{o}, in.Ops[pos:]...)...)
+		switch {
+		case total >= curCap && total > free:
+			c.Count("big-put:>=capacity-and-does-not-fit")
+		case total > free:
+			c.Count("big-put:does-not-fit")
+		default:
+			c.Count("big-put:fits")
+		}
+	}
+}
+
+// bigProbes: the shapes "overwrite, then one Put as large as the whole buffer" (the final-only
+// variants of the oracle run them in the other order: large Put first).
+func bigProbes() []Input {
+	c0 := bufCaps.overlay
+	big := func(n int, b byte) string { return string(bytes.Repeat([]byte{b}, n)) }
+	return []Input{
+		{Ops: []Op{put("k1", "aaaa"), put("k1", "bbbbbb"), put("k2", big(c0*5000/4096, 'x'))}},
+		{Ops: []Op{put("k1", "a-value"), put("k3", "c-value"), del("k1"), put("k3", "d"), put("k2", big(c0-2, 'y')), put("k4", "after")}},
+		{Ops: []Op{put("k1", "aaaa"), put("k2", "cc"), put("k1", "bbbbbb"), del("k2"), put("k1", big(c0+1, 'z')), put("k0", "after")}},
+	}
+}
+
 // randHistory: nops operations over a pool of npool keys.
 func randHistory(c *hx.Ctx, nops, npool int, long bool) Input {
 	addrs := [][]byte{c.Bytes(20), c.Bytes(20)}
@@ -208,7 +356,7 @@ func classify(c *hx.Ctx, ops []Op) (nontrivial bool) {
 		}
 		c.Count(fmt.Sprintf("keylen<=%d", bucket(len(o.K)/2, []int{0, 1, 2, 4, 12, 24})))
 		if !o.Del {
-			c.Count(fmt.Sprintf("vallen<=%d", bucket(len(o.V)/2, []int{0, 4, 40, 70, 500})))
+			c.Count(fmt.Sprintf("vallen<=%d", bucket(len(o.V)/2, []int{0, 4, 40, 70, 500, 1200, 4300, 10000})))
 		}
 		seen[o.K] = o
 	}
@@ -352,9 +500,14 @@ func Run(c *hx.Ctx) {
 			}
 		}
 	}
+	readCaps(c)
 	for _, p := range probes() {
 		doHistory(c, p, caseSteps, 3)
 		c.Count("gen:probe")
+	}
+	for i, p := range bigProbes() {
+		doHistory(c, p, []string{caseHist, caseSteps, caseSet}[i%3], 3)
+		c.Count("gen:probe-big")
 	}
 	// small histories, write set after every operation + final hash
 	for i := 0; i < c.N(250, 2500); i++ {
@@ -369,12 +522,24 @@ func Run(c *hx.Ctx) {
 	// larger histories and long values, write set only in Coq (the implementation's hash is still
 	// compared across all variants by the oracle)
 	for i := 0; i < c.N(300, 4000); i++ {
-		doHistory(c, randHistory(c, 10+c.Intn(70), 2+c.Intn(30), true), caseSet, 3)
+		in := randHistory(c, 10+c.Intn(70), 2+c.Intn(30), true)
+		if i%6 == 0 { // values around the buffer capacity, after an overwrite and a delete
+			if i%12 == 0 {
+				in = randHistory(c, 4+c.Intn(12), 2+c.Intn(5), false) // small buffer content: capacity still the initial one
+			}
+			addBigPuts(c, &in)
+			c.Count("gen:large-set:with-big-put")
+		}
+		doHistory(c, in, caseSet, 3)
 		c.Count("gen:large-set")
 	}
 	// many keys: skip-list towers of several levels
 	for i := 0; i < c.N(6, 60); i++ {
-		doHistory(c, randHistory(c, 300+c.Intn(900), 100+c.Intn(500), false), caseSet, 2)
+		in := randHistory(c, 300+c.Intn(900), 100+c.Intn(500), false)
+		if i%3 == 0 {
+			addBigPuts(c, &in)
+		}
+		doHistory(c, in, caseSet, 2)
 		c.Count("gen:many-keys")
 	}
 }
